@@ -26,16 +26,19 @@ def evaluate(d):
             return res
         envm = dict(os.environ, PYTHONPATH=mod)
         eq = os.path.join(d, 'equiv.py')
-        if os.path.exists(eq):
+        if FAST:
+            res['suite_rc'] = 'skipped'
+        if os.path.exists(eq) and not FAST:
             rc_e, out_e = sh(['/venv/bin/python', eq], cwd=mod, env=envm)
             res['equiv_rc'] = rc_e
             if rc_e:
                 res['equiv_tail'] = out_e.strip().splitlines()[-1][:200] if out_e.strip() else ''
-        for attempt in range(3):
+        for attempt in range(0 if FAST else 3):
             rc_t, out_t = sh(['/venv/bin/python', '-m', 'pytest', '-q', '-p', 'no:cacheprovider', 'tests'], cwd=mod, env=envm)
             if rc_t == 0:
                 break
-        res['suite_rc'] = rc_t
+        if not FAST:
+            res['suite_rc'] = rc_t
         alarms, errors = {}, {}
         env = dict(os.environ, LENTIL_REPO=mod, LSA_EVIDENCE_DIR=os.path.join(mod, '_evidence'), PYTHONPATH=VERIF)
         for pid in PROPS:
@@ -51,11 +54,14 @@ def evaluate(d):
         shutil.rmtree(mod, ignore_errors=True)
 
 
+FAST = '--fast' in sys.argv
+
 if __name__ == '__main__':
-    pat = sys.argv[1] if len(sys.argv) > 1 else '/tmp/wt/R*/_refactor/[0-9]*'
+    args = [a for a in sys.argv[1:] if not a.startswith('--')]
+    pat = args[0] if args else os.path.join(VERIF, 'variants', 'refactors', 'R*')
     dirs = sorted(d for d in glob.glob(pat) if os.path.exists(os.path.join(d, 'patch.diff')) and os.path.exists(os.path.join(d, 'notes.md')))
     out = {}
-    with cf.ThreadPoolExecutor(max_workers=6) as ex:
+    with cf.ThreadPoolExecutor(max_workers=8) as ex:
         for r in ex.map(evaluate, dirs):
             out[r['dir']] = r
             print(r['dir'], 'applies' if r.get('applies') else 'NOAPPLY', 'equiv', r.get('equiv_rc'), 'suite', r.get('suite_rc'),
